@@ -53,10 +53,26 @@ def fn_roles(m):
     return roles
 
 
+def code_table_name(m):
+    """Name of the code->effect table: today's name, else the module-level dict of ansi_param whose entries are int -> (effect, effect fn)."""
+    F = get_folder(m)
+    if isinstance(F.env.get('_ANSI_CODE_TO_EFFECT'), dict):
+        return '_ANSI_CODE_TO_EFFECT'
+    cands = []
+    for name, _v, _st in m.consts.get('ansi_param', []):
+        v = F.env.get(name)
+        if isinstance(v, dict) and len(v) >= 20 and all(isinstance(k, int) and isinstance(x, tuple) and len(x) == 2 and isinstance(x[0], EnumRef) and
+                                                      isinstance(x[1], EnumRef) for k, x in v.items()):
+            cands.append(name)
+    if len(set(cands)) == 1:
+        return cands[0]
+    raise AnalysisError('cannot fold the code->effect table')
+
+
 def code_table(m):
     """{code: (effect member, role)} folded from the code->effect table."""
     F = get_folder(m)
-    tbl = F.env.get('_ANSI_CODE_TO_EFFECT')
+    tbl = F.env.get(code_table_name(m))
     if not isinstance(tbl, dict) or not tbl:
         raise AnalysisError('cannot fold the code->effect table')
     roles = fn_roles(m)
@@ -69,7 +85,7 @@ def code_table(m):
 
 
 def _entry_nodes(m):
-    node = _table_node(m, 'ansi_param', '_ANSI_CODE_TO_EFFECT')
+    node = _table_node(m, 'ansi_param', code_table_name(m))
     out = {}
     if isinstance(node, ast.Dict):
         for k, v in zip(node.keys, node.values):
@@ -80,7 +96,7 @@ def _entry_nodes(m):
 @rule('T1', 'sgr-code-effect: code->effect table induces the reference partition; RESET/CLEAR/APPLY per code', floor=70)
 def T1(m, R):
     mod = m.mod('ansi_param')
-    W = _ModWhere(mod, '_ANSI_CODE_TO_EFFECT')
+    W = _ModWhere(mod, code_table_name(m))
     tbl = code_table(m)
     nodes = _entry_nodes(m)
     # effect used by each reference group
@@ -128,15 +144,27 @@ def T1(m, R):
     # AnsiParam.__init__ wires table[code][0] -> effect_type, [1] -> effect_fn
     init = m.fn('AnsiParam.__init__')
     wired = {}
+    unpacked = {}
     src_var = None
+    tname = code_table_name(m)
     for n in init.walk():
         if isinstance(n, (ast.Assign, ast.AnnAssign)):
             tgt = n.targets[0] if isinstance(n, ast.Assign) else n.target
             val = n.value
-            if isinstance(tgt, ast.Name) and isinstance(val, ast.Subscript) and is_name(val.value, '_ANSI_CODE_TO_EFFECT'):
+            if isinstance(tgt, ast.Name) and isinstance(val, ast.Subscript) and is_name(val.value, tname):
                 src_var = (tgt.id, norm(val.slice))
+            if isinstance(tgt, ast.Tuple) and isinstance(val, ast.Subscript) and is_name(val.value, tname) and all(isinstance(x, ast.Name) for x in tgt.elts):
+                # a, b = TABLE[code]: a stands for row[0], b for row[1]
+                src_var = ('<row>', norm(val.slice))
+                for i_, x in enumerate(tgt.elts):
+                    unpacked[x.id] = i_
             if isinstance(tgt, ast.Attribute) and isinstance(val, ast.Subscript) and isinstance(val.value, ast.Name):
                 wired[tgt.attr] = (val.value.id, const_val(val.slice))
+            if isinstance(tgt, ast.Attribute) and isinstance(val, ast.Name) and val.id in unpacked:
+                wired[tgt.attr] = ('<row>', unpacked[val.id])
+            if isinstance(tgt, ast.Attribute) and isinstance(val, ast.Subscript) and isinstance(val.value, ast.Subscript) and is_name(val.value.value, tname):
+                src_var = ('<row>', norm(val.value.slice))
+                wired[tgt.attr] = ('<row>', const_val(val.slice))
     for prop, idx in (('effect_type', 0), ('effect_fn', 1)):
         pf = m.funcs.get('AnsiParam.' + prop)
         if pf is None:
@@ -303,16 +331,18 @@ def T4(m, R):
                 'property %s returns %r which holds %r, not %s' % (prop, attr, attr_of.get(attr), want), construct='property ' + prop)
     # fn(): arity guard and setup + args
     fnf = m.fn('_AnsiControlFn.fn')
+    from ..shapes import local_aliases, canon
+    fal = local_aliases(fnf)
     rets = [n for n in fnf.walk() if isinstance(n, ast.Return)]
     good = len(rets) == 1 and isinstance(rets[0].value, ast.BinOp) and isinstance(rets[0].value.op, ast.Add) and \
-        norm(rets[0].value.left) == 'self.setup_seq' and norm(rets[0].value.right) in ('tuple(%s)' % fnf.vararg, fnf.vararg)
+        canon(rets[0].value.left, fal) == 'self.setup_seq' and canon(rets[0].value.right, fal) in ('tuple(%s)' % fnf.vararg, fnf.vararg)
     R.check(good, fnf, rets[0] if rets else fnf.node, 'fn() returns setup_seq + tuple(args)', construct='fn return')
     guard = [n for n in fnf.walk() if isinstance(n, ast.If)]
     gok = False
     for g in guard:
         t = g.test
         if isinstance(t, ast.Compare) and len(t.ops) == 1 and isinstance(t.ops[0], ast.NotEq) and \
-                {norm(t.left), norm(t.comparators[0])} == {'len(%s)' % fnf.vararg, 'self.num_args'} and \
+                {canon(t.left, fal), canon(t.comparators[0], fal)} == {'len(%s)' % fnf.vararg, 'self.num_args'} and \
                 any(isinstance(x, ast.Raise) for x in g.body):
             gok = True
     R.check(gok, fnf, guard[0] if guard else fnf.node, 'fn() rejects a wrong number of arguments', construct='fn arity guard')
@@ -320,6 +350,7 @@ def T4(m, R):
     sf = m.fn('_AnsiControlFn.seq_starts_with_fn')
     seq = sf.own_params()[0]
     body = sf.body
+    sal = local_aliases(sf)
     # length guard: returns False exactly when len(seq) < len(setup)
     lg = None
     for st in body:
@@ -331,7 +362,7 @@ def T4(m, R):
         R.viol(sf, sf.node, 'no length guard: a sequence shorter than the setup could match by zip() truncation', construct='length guard')
     else:
         from ..finite import cmp_regions
-        l, r = norm(lg.test.left), norm(lg.test.comparators[0])
+        l, r = canon(lg.test.left, sal), canon(lg.test.comparators[0], sal)
         want_l, want_r = 'len(%s)' % seq, 'len(self.setup_seq)'
         regions = cmp_regions(lg.test.ops[0], swapped=(l == want_r and r == want_l))
         if {l, r} != {want_l, want_r}:
@@ -343,7 +374,7 @@ def T4(m, R):
     lok = False
     for lp in loops:
         it = lp.iter
-        if call_name(it) == 'zip' and {norm(a) for a in it.args} == {'self.setup_seq', seq} and isinstance(lp.target, ast.Tuple):
+        if call_name(it) == 'zip' and {canon(a, sal) for a in it.args} == {'self.setup_seq', seq} and isinstance(lp.target, ast.Tuple):
             a, b = [x.id for x in lp.target.elts]
             for n in lp.body:
                 if isinstance(n, ast.If) and isinstance(n.test, ast.Compare) and isinstance(n.test.ops[0], ast.NotEq) and \
@@ -357,7 +388,7 @@ def T4(m, R):
         q = quantifier(last.value)
         if q is not None:
             kind, it, tgt, pred = q
-            if call_name(it) == 'zip' and {norm(a) for a in it.args} == {'self.setup_seq', seq} and isinstance(tgt, ast.Tuple) and kind == 'all':
+            if call_name(it) == 'zip' and {canon(a, sal) for a in it.args} == {'self.setup_seq', seq} and isinstance(tgt, ast.Tuple) and kind == 'all':
                 a, b = [x.id for x in tgt.elts]
                 p_ = pred
                 negd = False
